@@ -4928,7 +4928,11 @@ class SSHClientConnection(SSHConnection):
         else:
             prev_listener = self._remote_listeners.get((listen_host,
                                                         listen_port))
-            self._remote_listeners[listen_host, listen_port] = listener
+
+            # A listener already set up on this address keeps getting
+            # its connections while this request is pending
+            if not prev_listener:
+                self._remote_listeners[listen_host, listen_port] = listener
 
         def _forget_listener() -> None:
             """Undo the registration above"""
@@ -5159,7 +5163,11 @@ class SSHClientConnection(SSHConnection):
                                                  errors, window, max_pktsize)
 
         prev_listener = self._remote_listeners.get(listen_path)
-        self._remote_listeners[listen_path] = listener
+
+        # A listener already set up on this path keeps getting its
+        # connections while this request is pending
+        if not prev_listener:
+            self._remote_listeners[listen_path] = listener
 
         def _forget_listener() -> None:
             """Undo the registration above"""
@@ -5183,6 +5191,7 @@ class SSHClientConnection(SSHConnection):
         packet.check_end()
 
         if pkttype == MSG_REQUEST_SUCCESS:
+            self._remote_listeners[listen_path] = listener
             return listener
         else:
             self.logger.debug1('Failed to create remote UNIX listener')
